@@ -823,6 +823,9 @@ fn new_ops(
         match res {
             Err(k) => {
                 let fr = e.rec.take();
+                if format!("{:?}", k) == "FlowControl" && fin_ <= h.adv {
+                    sink.monitor_fail("reset_within_limit_rejected", &format!("stream {}{}: RESET_STREAM with final size {} within the advertised stream limit {} answered with FLOW_CONTROL_ERROR", s, tag, fin_, h.adv));
+                }
                 sink.branch(&format!("reset:err:{:?}", k));
                 sink.line(&op, &format!("err={:?}{}", k, frames_tok(&fr)));
                 true
